@@ -6,6 +6,10 @@ import Aergo.Model.Crash
 * `new <genesis id> <genesis root> <max height>`        fresh node on the genesis store; answer: dump
 * `feed <id> <parent> <no> <root> <txs|->`              `addBlock` of a block from the network; answer:
                                                         result, best, state root, the write units
+* `feedx <id> <parent> <no> <root> <txs|->`             the same for a block whose execution fails (the header's
+                                                        state root is not the one execution reaches)
+* `lag <k> <s>`                                         restart on the stores left by the first k units of the
+                                                        journal when the state DB lost its units from position s on
 * `dump`                                                canonical dump of the durable stores
 * `crash <k> [<j>]`                                     restart on the stores left by the first k units of the
                                                         recorded journal (plus the first j entries of unit k)
@@ -27,6 +31,7 @@ structure Sess where
   node : Node := ⟨fun _ => none, default, 0, []⟩
   crashStart : Store := fun _ => none
   crashUnits : List Crash.Unit := []
+  bad : List Nat := []          -- ids of the blocks whose execution fails
 
 def insNat (x : Nat) : List Nat → List Nat
   | [] => [x]
@@ -104,6 +109,19 @@ def doRestart (s : Sess) (D : Store) : Sess × String × List Crash.Unit :=
       ({ s with node := N, recording := false },
        s!"boot=ok init={showUnits us1} rec=ok recunits={showUnits us2} best={N.best.id} root={N.sdbRoot}", us1 ++ us2)
 
+def doFeed (s : Sess) (isBad : Bool) (i p n r t : String) : Sess × String :=
+  match i.toNat?, p.toNat?, n.toNat?, r.toNat?, pTxs t with
+  | some i, some p, some n, some r, some t =>
+    let b : Block := ⟨i, p, n, r, t⟩
+    let bad := if isBad then i :: s.bad else s.bad
+    let (N, res, us) := feedB (fun x => bad.contains x) s.node b
+    let s' := { s with blocks := insBlock b s.blocks, txs := t.foldl (fun a x => insNat x a) s.txs,
+                       roots := insNat r s.roots, node := N, bad := bad,
+                       J := if s.recording then s.J ++ us else s.J }
+    let rs := match res with | .ok => "ok" | .err => "err"
+    (s', s!"{rs} best={N.best.id} root={N.sdbRoot} units={showUnits us}")
+  | _, _, _, _, _ => (s, "bad-op")
+
 def step (s : Sess) (line : String) : Sess × String :=
   match words line with
   | ["new", g, r, mx] =>
@@ -115,17 +133,16 @@ def step (s : Sess) (line : String) : Sess × String :=
                          node := ⟨D, gb, r, []⟩ }
       (s', dump s' D)
     | _, _, _ => (s, "bad-op")
-  | ["feed", i, p, n, r, t] =>
-    match i.toNat?, p.toNat?, n.toNat?, r.toNat?, pTxs t with
-    | some i, some p, some n, some r, some t =>
-      let b : Block := ⟨i, p, n, r, t⟩
-      let (N, res, us) := feed s.node b
-      let s' := { s with blocks := insBlock b s.blocks, txs := t.foldl (fun a x => insNat x a) s.txs,
-                         roots := insNat r s.roots, node := N,
-                         J := if s.recording then s.J ++ us else s.J }
-      let rs := match res with | .ok => "ok" | .err => "err"
-      (s', s!"{rs} best={N.best.id} root={N.sdbRoot} units={showUnits us}")
-    | _, _, _, _, _ => (s, "bad-op")
+  | ["feed", i, p, n, r, t] => doFeed s false i p n r t
+  | ["feedx", i, p, n, r, t] => doFeed s true i p n r t
+  | ["lag", k, l] =>
+    match k.toNat?, l.toNat? with
+    | some k, some l =>
+      if k > s.J.length ∨ l > k then (s, "bad-op") else
+      let D := crashLag s.J k l s.base
+      let (s', out, us) := doRestart s D
+      ({ s' with crashStart := D, crashUnits := us }, out)
+    | _, _ => (s, "bad-op")
   | ["dump"] => (s, dump s s.node.D)
   | ["crash", k] =>
     match k.toNat? with
